@@ -10,6 +10,8 @@ Import ListNotations.
 (** * Outcomes *)
 Inductive reject_class :=
 | CMultipleAttrs          (* "multiple `borsh` attributes not allowed"           attributes/mod.rs:67 *)
+| CRepeatedKey            (* "`key` is given more than once in `borsh(...)`" (commit 922f373):
+                             item/mod.rs check_attributes, parsing.rs get_nested_meta_logic *)
 | CVariantAttr            (* "`borsh` attributes are not supported on enum variants"   item/mod.rs:10-19 *)
 | CUnknownItemKey         (* "`crate`, `use_discriminant` or `init` are the only supported attributes" *)
 | CUseDiscrStruct         (* "borsh(use_discriminant=<bool>) does not support structs" *)
@@ -54,6 +56,44 @@ Definition value_expr (v : meta_val) : res := if missing v then Some CMalformedV
 
 Definition is_struct (b : body) : bool := match b with BStruct _ => true | _ => false end.
 
+(** * A key may occur only once in one [#[borsh(k1, k2, ...)]] list (commit 922f373) *)
+Definition item_key_eqb (a b : item_key) : bool :=
+  match a, b with
+  | IKUseDiscriminant, IKUseDiscriminant | IKInit, IKInit | IKCrate, IKCrate => true
+  | IKOther x, IKOther y => String.eqb x y
+  | _, _ => false
+  end.
+(** the key a field-level entry is filed under ([BORSH_FIELD_PARSE_MAP]) *)
+Inductive field_key := FKSkip | FKSerializeWith | FKDeserializeWith | FKBound | FKSchema | FKOther (name : string).
+Definition field_key_of (m : field_meta) : field_key :=
+  match m with
+  | FSkip => FKSkip
+  | FSerializeWith _ _ => FKSerializeWith
+  | FDeserializeWith _ _ => FKDeserializeWith
+  | FBound _ _ => FKBound
+  | FSchema _ _ => FKSchema
+  | FOther n => FKOther n
+  end.
+Definition field_key_eqb (a b : field_key) : bool :=
+  match a, b with
+  | FKSkip, FKSkip | FKSerializeWith, FKSerializeWith | FKDeserializeWith, FKDeserializeWith
+  | FKBound, FKBound | FKSchema, FKSchema => true
+  | FKOther x, FKOther y => String.eqb x y
+  | _, _ => false
+  end.
+(** [if seen.contains(&key) { return Err(..) }] / [if result.insert(key, v).is_some() { return Err(..) }] *)
+Definition seen_err {K} (eqb : K -> K -> bool) (k : K) (seen : list K) : res :=
+  if existsb (eqb k) seen then Some CRepeatedKey else None.
+(** the closure of [parse_nested_meta] run over the entries of one attribute, in order, with the
+    keys met so far: [pre x] (errors reported before the key is recorded), the repetition test,
+    [post x] (errors reported after it) *)
+Fixpoint keyed_err {A K} (key : A -> K) (eqb : K -> K -> bool) (pre post : A -> res)
+         (seen : list K) (l : list A) : res :=
+  match l with
+  | [] => None
+  | x :: r => pre x ;;; seen_err eqb (key x) seen ;;; post x ;;; keyed_err key eqb pre post (key x :: seen) r
+  end.
+
 (** * attributes/item/mod.rs *)
 (** [check_attributes] *)
 Definition check_item_meta (b : body) (m : item_meta) : res :=
@@ -68,9 +108,14 @@ Definition variant_attr_err (v : variant) : res :=
   match v_attrs v with [] => None | _ :: _ => Some CVariantAttr end.
 Definition variants_attr_err (b : body) : res :=
   match b with BEnum vs => first_err variant_attr_err vs | _ => None end.
+(** the closure of [check_attributes]: unknown key, then (922f373) a key already seen, then the value *)
+Definition item_unknown_err (m : item_meta) : res :=
+  match im_key m with IKOther _ => Some CUnknownItemKey | _ => None end.
+Definition check_item_metas (b : body) (ms : list item_meta) : res :=
+  keyed_err im_key item_key_eqb item_unknown_err (check_item_meta b) [] ms.
 Definition check_attributes (it : item) : res :=
   get_one (it_attrs it) ;;; variants_attr_err (it_body it) ;;;
-  first_err (check_item_meta (it_body it)) (first_attr (it_attrs it)).
+  check_item_metas (it_body it) (first_attr (it_attrs it)).
 
 (** [get_crate] (through [cratename::get]): the value of [crate] is a string literal holding a path. *)
 Definition get_crate_meta (m : item_meta) : res :=
@@ -151,7 +196,12 @@ Definition field_meta_err (m : field_meta) : res :=
   | FSchema _ (Some (d1, d2)) => if xorb d1 d2 then Some CWithFuncsIncomplete else None
   | _ => None
   end.
-(** [impl From<BTreeMap<Symbol, Variants>> for Attributes]: one slot per key, the last entry wins *)
+(** [get_nested_meta_logic] over the entries of the attribute: the parse function of the key first
+    (an unknown key has none: error), then (922f373) [result.insert(key, v).is_some()] is an error *)
+Definition field_metas_err (ms : list field_meta) : res :=
+  keyed_err field_key_of field_key_eqb field_meta_err (fun _ => None) [] ms.
+(** [impl From<BTreeMap<Symbol, Variants>> for Attributes]: one slot per key (since 922f373 a key
+    cannot be entered twice; the fold below would keep the last entry) *)
 Definition field_meta_apply (a : fattr) (m : field_meta) : fattr :=
   match m with
   | FSkip => {| fa_skip := true; fa_ser_with := fa_ser_with a; fa_de_with := fa_de_with a;
@@ -177,7 +227,7 @@ Definition fattr_check (a : fattr) : res :=
 
 (** [Attributes::parse] *)
 Definition field_attrs_err (a : attrs field_meta) : res :=
-  get_one a ;;; first_err field_meta_err (first_attr a) ;;; fattr_check (field_attr_of (first_attr a)).
+  get_one a ;;; field_metas_err (first_attr a) ;;; fattr_check (field_attr_of (first_attr a)).
 Definition parsed (f : field) : fattr := field_attr_of (first_attr (f_attrs f)).
 
 Definition fields_err (fs : fields) : res :=
@@ -247,7 +297,8 @@ Inductive rule :=
 | RTooManyVariants    (* more than 256 variants *)
 | RSkipConflict       (* skip combined with serialize_with/deserialize_with or a schema override *)
 | RUnknownAttr        (* unknown borsh attributes *)
-| RRepeatedAttr       (* repeated borsh attributes *)
+| RRepeatedAttr       (* repeated borsh attributes: two [#[borsh(..)]] on one node *)
+| RRepeatedKey        (* repeated borsh attributes: one key twice inside one [#[borsh(..)]] *)
 | RUnion              (* unions *)
 | RUndocumented.      (* not a definition "the documentation allows": a value of another shape
                          than documented (missing, crate not a string path, init not a path,
@@ -274,7 +325,9 @@ Definition tag_doc (ds : list (option expr)) (i : nat) : option Z :=
   | Some n, Some m => if Z.eqb n m then Some n else None
   | _, _ => None
   end.
-(** the setting in force: the last [use_discriminant = true/false] *)
+(** the setting: the [use_discriminant = true/false] entry.  An item with two of them violates
+    [RRepeatedKey] whatever they say; for such an item this is the last one, which is what the
+    later functions of the macro would read. *)
 Definition setting (it : item) : option bool := use_discr_setting (item_metas it).
 
 Definition r_discr_no_setting (it : item) : bool :=
@@ -295,17 +348,15 @@ Definition r_too_many (it : item) : bool := Nat.ltb 256 (length (variants_of it)
 Definition is_skip (m : field_meta) : bool := match m with FSkip => true | _ => false end.
 Definition is_with (m : field_meta) : bool :=
   match m with FSerializeWith _ _ | FDeserializeWith _ _ => true | _ => false end.
-(** a key repeated inside one attribute: the last occurrence is the one in force (DESIGN section 6) *)
-Definition schema_in_force (ms : list field_meta) : option (bool * option (bool * bool)) :=
-  fold_left (fun acc m => match m with FSchema p wf => Some (p, wf) | _ => acc end) ms None.
-Definition schema_override (ms : list field_meta) : bool :=
-  match schema_in_force ms with
-  | Some (p, wf) => p || match wf with Some _ => true | None => false end
-  | None => false
+(** a schema override: [schema(params = ..)] or [schema(with_funcs(..))] *)
+Definition has_schema_override (m : field_meta) : bool :=
+  match m with
+  | FSchema p wf => p || match wf with Some _ => true | None => false end
+  | _ => false
   end.
 Definition r_skip_conflict (it : item) : bool :=
   existsb (fun f => existsb is_skip (field_metas f) &&
-                    (existsb is_with (field_metas f) || schema_override (field_metas f))) (all_fields it).
+                    (existsb is_with (field_metas f) || existsb has_schema_override (field_metas f))) (all_fields it).
 Definition r_unknown (it : item) : bool :=
   existsb (fun m => match im_key m with IKOther _ => true | _ => false end) (item_metas it) ||
   existsb (fun f => existsb (fun m => match m with FOther _ => true | _ => false end) (field_metas f)) (all_fields it) ||
@@ -314,6 +365,20 @@ Definition r_repeated (it : item) : bool :=
   Nat.ltb 1 (length (it_attrs it)) ||
   existsb (fun f => Nat.ltb 1 (length (f_attrs f))) (all_fields it) ||
   existsb (fun v => Nat.ltb 1 (length (v_attrs v))) (variants_of it).
+(** some key occurs twice within ONE attribute's list: item level ([use_discriminant], [init],
+    [crate], or an unknown key), field level ([skip], [serialize_with], [deserialize_with], [bound],
+    [schema], or an unknown key), or on a variant.  (Repetitions inside the nested lists
+    [bound(..)], [schema(..)], [with_funcs(..)] are outside the item syntax: their entries are
+    flags here; they are exercised at source level by checks/c18.py.) *)
+Fixpoint has_dup {K} (eqb : K -> K -> bool) (l : list K) : bool :=
+  match l with
+  | [] => false
+  | k :: r => existsb (eqb k) r || has_dup eqb r
+  end.
+Definition r_repeated_key (it : item) : bool :=
+  existsb (fun a => has_dup item_key_eqb (map im_key a)) (it_attrs it) ||
+  existsb (fun f => existsb (fun a => has_dup field_key_eqb (map field_key_of a)) (f_attrs f)) (all_fields it) ||
+  existsb (fun v => existsb (has_dup String.eqb) (v_attrs v)) (variants_of it).
 Definition r_union (it : item) : bool := match it_body it with BUnion _ => true | _ => false end.
 Definition r_undocumented (k : derive_kind) (it : item) : bool :=
   existsb (fun m => match im_key m with
@@ -333,6 +398,7 @@ Definition r_undocumented (k : derive_kind) (it : item) : bool :=
 
 Definition rules (k : derive_kind) (it : item) : list (rule * bool) :=
   [ (RRepeatedAttr, r_repeated it);
+    (RRepeatedKey, r_repeated_key it);
     (RUnknownAttr, r_unknown it);
     (RUndocumented, r_undocumented k it);
     (RUseDiscrStruct, r_use_discr_struct it);
@@ -350,6 +416,7 @@ Definition violates (k : derive_kind) (it : item) : option rule := hd_error (vio
 Definition rule_of_class (c : reject_class) : rule :=
   match c with
   | CMultipleAttrs => RRepeatedAttr
+  | CRepeatedKey => RRepeatedKey
   | CVariantAttr | CUnknownItemKey | CUnknownFieldKey => RUnknownAttr
   | CUseDiscrStruct => RUseDiscrStruct
   | CUseDiscrValue => RUseDiscrValue
